@@ -669,7 +669,7 @@ class _Checker:
         # rep: every CG bead definition is repeated `rep` times in the mapping file, so that mapping a frame
         # (done by the workers in parallel) costs more than reading it (done under the reader lock, serially);
         # without this the workers' Apply() calls hardly ever overlap
-        ngroups, nm, nf, rep_ = (2, 60, 40, 24) if ctx.quick else (8, 100, 120, 32)
+        ngroups, nm, nf, rep_ = (2, 60, 40, 24) if ctx.quick else (6, 80, 80, 24)
         for gi, (key, g) in enumerate(ranked[:ngroups]):
             md, fl, box = g["md"], g["fl"], g["box"]
             n = md["n"]
